@@ -167,6 +167,9 @@ func typedValue(schema *openapi3.Schema, value any) any {
 			fields[name] = item
 			if property, found := schema.Properties[name]; found && property != nil {
 				fields[name] = typedValue(property.Value, item)
+			} else if schema.AdditionalProperties.Schema != nil {
+				// the values of a map
+				fields[name] = typedValue(schema.AdditionalProperties.Schema.Value, item)
 			}
 		}
 
